@@ -196,7 +196,7 @@ Proof.
   destruct (HT1 l1 l2 t E d Hd) as [o [Ho Hin]]. split; [exists o; auto|].
   assert (Hin' : In (OEnd d (RBuilt o)) (trace s)) by (rewrite E; apply in_or_app; right; right; exact Hin).
   destruct (HT2 _ _ Hin') as [Ets _]. cbn in Ets.
-  split; intros Hbad; destruct (HT2 _ _ Hbad) as [Ets' _]; cbn in Ets'; rewrite Ets in Ets'; subst o; discriminate.
+  split; intros Hbad; destruct (HT2 _ _ Hbad) as [Ets' _]; cbn in Ets'; rewrite Ets in Ets'; rewrite Ets' in Ho; vm_compute in Ho; discriminate Ho.
 Qed.
 
 (* logged exactly once: a target has a final result in the logged stream iff it is completed, and never two *)
@@ -229,7 +229,7 @@ Proof.
   pose proof (tends_skipn t (length (trace s) - nfwd s) (trace s)) as H1.
   pose proof (tstarts_skipn t (length (trace s) - nfwd s) (trace s)) as H2.
   pose proof (logged_once g s Hr t) as H3. pose proof (once g s Hr t) as H4.
-  destruct (completed (ts s t)); repeat split; try lia. intros; lia.
+  destruct (completed (ts s t)); repeat split; intros; try lia.
 Qed.
 
 (* nothing pending in internalResults when the run ended: then reported = logged *)
@@ -242,21 +242,13 @@ Proof.
   intros g s Hr. pattern s. apply (reachable_ind' g); [cbn; lia | | exact Hr].
   intros s0 l _ IH He. pose proof (trace_apply g s0 l He) as Ht.
   assert (Hn : l <> LForward -> nfwd (apply g s0 l) = nfwd s0).
-  { intros Hne. destruct l; try congruence; cbn [apply]; autorewrite with proj; cbn; auto.
-    - destruct (initq s0); reflexivity.
-    - destruct (ex s0 l); autorewrite with proj; reflexivity.
-    - destruct (Nat.eqb t l); autorewrite with proj; reflexivity.
-    - destruct (ex s0 l); autorewrite with proj; reflexivity.
-    - destruct (cas cas_noneed (ts s0 t)); reflexivity.
-    - destruct (asy s0 t) as [|[|d r]| | | |]; try reflexivity.
-      destruct (ex s0 d); [|destruct (pst_eqb (pk s0 (g_pkg g d)) PParsed)]; cbn; autorewrite with proj; reflexivity.
-    - destruct (asy s0 t); try reflexivity. destruct (ex s0 d); cbn; autorewrite with proj; reflexivity.
-    - destruct (asy s0 t) as [| |? [|]| | |]; cbn; autorewrite with proj; reflexivity.
-    - destruct (asy s0 t) as [| | |[|]| |]; reflexivity.
-    - destruct (cas [cas_pending] (ts s0 t)); reflexivity.
-    - destruct (closed s0); reflexivity. }
+  { intros Hne. destruct l; try congruence; cbn [apply];
+      repeat (first [ reflexivity | progress autorewrite with proj | progress cbn
+                    | match goal with |- context [match ?x with _ => _ end] => destruct x end
+                    | match goal with |- context [if ?x then _ else _] => destruct x end ]). }
   destruct l; try (rewrite Hn by discriminate);
     repeat match goal with H : _ /\ _ |- _ => destruct H | H : _ \/ _ |- _ => destruct H | H : exists _, _ |- _ => destruct H end;
     try match goal with H : trace _ = _ |- _ => rewrite H end; cbn [length]; try lia.
-  unfold enabled in He. btrue. apply Nat.ltb_lt in H0. cbn. lia.
+  all: unfold enabled in He; btrue;
+    match goal with H : Nat.ltb _ _ = true |- _ => apply Nat.ltb_lt in H end; cbn; lia.
 Qed.
